@@ -58,6 +58,10 @@ pub trait LabProp: Sync {
     fn batch_size(&self) -> usize {
         24
     }
+    /// optional rewrite applied to every generated grammar before anything else (e.g. probes)
+    fn transform(&self, _g: &Grammar) -> Option<Grammar> {
+        None
+    }
 }
 
 #[derive(Clone)]
@@ -279,7 +283,10 @@ pub fn run_lab(p: &dyn LabProp, ctx: &Ctx, rep: &mut Report) -> LabOutcome {
         let gt = dice::draw_trees(&mut runner, 500, n);
         let it = dice::draw_trees(&mut runner, 6000, n);
         for (t, i) in gt.into_iter().zip(it) {
-            let g = ggen::build(prof, &t.current());
+            let mut g = ggen::build(prof, &t.current());
+            if let Some(g2) = p.transform(&g) {
+                g = g2;
+            }
             let text = print(&g).text;
             cases.push(CaseIn { g, text, profile: prof.name, istream: i.current() });
             trees.push(Some((t, prof.clone())));
@@ -333,7 +340,10 @@ pub fn run_lab(p: &dyn LabProp, ctx: &Ctx, rep: &mut Report) -> LabOutcome {
             let mut steps = 0;
             let mut fails = |stream: &[u32]| -> bool {
                 steps += 1;
-                let g2 = ggen::build(&prof, stream);
+                let mut g2 = ggen::build(&prof, stream);
+                if let Some(g3) = p.transform(&g2) {
+                    g2 = g3;
+                }
                 let text2 = print(&g2).text;
                 let info2 = GInfo::new(&g2);
                 if p.domain(&g2, &info2).is_err() {
